@@ -1,5 +1,6 @@
 import SC.Properties.C04
 import SC.Proofs.StdEqualFold
+import SC.Proofs.SrcCompare
 /-!
 # C02 — EqualFold is observationally identical to strings.EqualFold / bytes.EqualFold
 
@@ -68,4 +69,19 @@ theorem bad_byte_is_fffd (b : UInt8) (h : 0xF5 ≤ b ∨ (0x80 ≤ b ∧ b < 0xC
 example : A.EqualFold {} [0xFF] [0x80] = true ∧ A.EqualFold {pkg := .byt} [0xFF] [0xEF, 0xBF, 0xBD] = true ∧
     A.EqualFold {} [0xC3] [0xEF, 0xBF, 0xBD] = true := by decide +kernel
 example : A.EqualFold {} [0x4B] [0xE2, 0x84, 0xAA] = true ∧ A.EqualFold {} [0x61, 0x62] [0x61] = false := by decide +kernel
+/-- **Source level, partial**: on the regenerated program text of `strcase.go`, `EqualFold` is `Compare == 0` (`GoSsa.Str.EqualFold`), and
+    for ASCII-only arguments `Compare`'s byte loop is proved (`Proofs/SrcCompare.lean`): the program text of `EqualFold` returns
+    `S.equalFold s t`, which `equalFold_eq_std` identifies with `strings.EqualFold`.  Missing for the full statement: the rune loop of
+    `Compare` (non-ASCII arguments), tied to the model by the correspondence run only. -/
+theorem source_equalFold_ascii_partial (s t : Bytes) (h : GoSsa.Heap)
+    (hls : s.length < 4611686018427387904) (hlt : t.length < 4611686018427387904)
+    (hs : ∀ b ∈ s, b < 0x80) (ht : ∀ b ∈ t, b < 0x80) :
+    GoSsa.Ret Gen.Src.str false Gen.Src.str_EqualFold [.str s 0 0, .str t 1 0] h [.bool (S.equalFold s t)] h := by
+  have hc := GoSsa.Str.Compare_ascii s t 0 0 1 0 h hls hlt hs ht
+  have := GoSsa.Str.EqualFold _ _ h h _ hc
+  rw [← equalFold_refines (GoSsa.cfg false)]
+  have e : decide (A.Compare (GoSsa.cfg false) s t = 0) = A.EqualFold (GoSsa.cfg false) s t := by
+    unfold A.EqualFold
+    by_cases hh : A.Compare (GoSsa.cfg false) s t = 0 <;> simp [hh]
+  rwa [e] at this
 end C02
